@@ -18,6 +18,10 @@ package model
 // the cropped document is itself within the limit (escaping can inflate the strings that the crop cut by raw length)
 //@ func (*ErrorCause).croppedJSON
 //@   ensures [the-cropped-cause-is-within-the-limit] len(r0) <= MaxErrorCauseSizeBytes
+// C20 ("causes ... with invalid JSON are dropped"): the cause is parsed as one whole JSON document (json.Unmarshal rejects
+// trailing bytes; a streaming decoder would accept the first value and ignore what follows)
+//@ func newErrorCause
+//@   ensures [C20: only-a-whole-json-document-is-a-cause] r1 == nil ==> validJSONDoc(errorCauseJSON)
 //@ func ValidatedErrorCauseJSON
 //@   ensures [within-the-limit] r1 == nil ==> len(r0) <= MaxErrorCauseSizeBytes
 //@   ensures [within-the-limit-unless-cropped] r1 == nil && delta(ErrorCauseCropped) == 0 ==> len(r0) <= MaxErrorCauseSizeBytes
